@@ -11,7 +11,10 @@ package main
 //	                statement, variable, undeclared, DUAL) × every syntactic role that takes a name.
 
 import (
+	"strconv"
 	"strings"
+
+	"github.com/mithrandie/csvq/lib/query"
 )
 
 func fieldsGridJobs() []*job {
@@ -173,6 +176,65 @@ func roleJobs() []*job {
 			body := strings.ReplaceAll(r.tmpl, "%s", n.name)
 			stmts := append(append([]string{}, preamble...), strings.Split(body, "; ")...)
 			jobs = append(jobs, progJob("roles", []string{"stmt:role grid", "role:" + r.tag, "name-kind:" + n.kind}, nil, stmts...))
+		}
+	}
+	return jobs
+}
+
+// ---------------------------------------------------------------- names and table objects through the "other" grammar rule
+
+// quotedNameJobs: a function name written as a QUOTED identifier takes the generic production identifier '(' arguments ')' even
+// when the name is a token with a production of its own (JSON_OBJECT '(' fields ')', COUNT, LISTAGG, SUBSTRING … FROM, IF, REPLACE,
+// analytic names …): the evaluator still dispatches on the name and meets an argument list of another shape.
+func quotedNameJobs() []*job {
+	names := append(append(append([]string{}, sortedKeys(query.Functions)...), sortedKeys(query.AggregateFunctions)...), sortedKeys(query.AnalyticFunctions)...)
+	names = append(names, "JSON_OBJECT", "NOW", "CALL", "LISTAGG", "JSON_AGG", "IF", "REPLACE", "SUBSTRING", "COUNT", "CASE", "CAST", "CURSOR", "EXISTS", "JSON_ROW", "JSON_TABLE", "CSV", "DUAL", "STDIN")
+	argss := [][]string{{}, {"c1"}, {"1"}, {"c1", "c2"}, {"*"}, {"c1 AS a"}, {"1", "2", "3"}}
+	var jobs []*job
+	seen := map[string]bool{}
+	for _, n := range names {
+		if seen[n] {
+			continue
+		}
+		seen[n] = true
+		for _, a := range argss {
+			if n == "CALL" && len(a) > 0 {
+				continue // would run an external program
+			}
+			call := "`" + n + "`(" + strings.Join(a, ", ") + ")"
+			tags := []string{"stmt:quoted function name", "quoted-name:" + n, "arity:" + strconv.Itoa(len(a))}
+			jobs = append(jobs, progJob("roles", tags, nil, "SELECT "+call+" FROM t"))
+			if len(a) == 1 {
+				jobs = append(jobs, progJob("roles", tags, nil, "SELECT "+call+" OVER () FROM t"))
+				jobs = append(jobs, progJob("roles", tags, nil, "SELECT "+call))
+			}
+		}
+	}
+	return jobs
+}
+
+// dmlTargetJobs: every shape of table object where a statement expects a plain table.
+func dmlTargetJobs() []*job {
+	objects := []struct{ class, obj string }{
+		{"identifier", "t"}, {"quoted file", "`t.csv`"}, {"parenthesised table", "(t)"}, {"parenthesised table", "((t))"}, {"parenthesised join", "(t JOIN u ON t.c1 = u.c1)"},
+		{"join", "t JOIN u ON t.c1 = u.c1"}, {"cross join", "t CROSS JOIN u"}, {"table list", "t, u"}, {"alias", "t x"}, {"sub-query", "(SELECT 1) x"}, {"sub-query", "(SELECT * FROM t) x"},
+		{"lateral", "t CROSS JOIN LATERAL (SELECT 1) x"}, {"dual", "DUAL"}, {"stdin", "STDIN"}, {"table function", "CSV(',', `t.csv`)"}, {"table function", "CSV(',', `t.csv`) x"},
+		{"inline table", "CSV_INLINE(',', 'a,b\n1,2')"}, {"inline table", "JSON_INLINE('', '[{\"a\":1}]') j"}, {"url", "file:t.csv"}, {"file function", "FILE::('t.csv')"}, {"data function", "DATA::('a,b')"},
+		{"temporary view", "v"}, {"missing", "nosuch"}, {"keyword", "select"},
+	}
+	tmpls := []struct{ tag, tmpl string }{
+		{"DELETE FROM", "DELETE FROM %s"}, {"DELETE FROM WHERE", "DELETE FROM %s WHERE 1 = 1"}, {"DELETE x FROM", "DELETE t FROM %s"}, {"DELETE with CTE", "WITH w AS (SELECT 1) DELETE FROM %s"},
+		{"UPDATE", "UPDATE %s SET c1 = 1"}, {"UPDATE FROM", "UPDATE t SET c1 = 1 FROM %s"}, {"INSERT VALUES", "INSERT INTO %s VALUES (1, 2, 3)"}, {"INSERT SELECT", "INSERT INTO %s SELECT 1, 2, 3"},
+		{"REPLACE", "REPLACE INTO %s USING (c1) VALUES (1, 2, 3)"}, {"ALTER ADD", "ALTER TABLE %s ADD z"}, {"ALTER DROP", "ALTER TABLE %s DROP c1"}, {"ALTER RENAME", "ALTER TABLE %s RENAME c1 TO z"},
+		{"ALTER SET", "ALTER TABLE %s SET FORMAT TO 'JSON'"}, {"SHOW FIELDS", "SHOW FIELDS FROM %s"}, {"SELECT FOR UPDATE", "SELECT * FROM %s FOR UPDATE"}, {"CREATE TABLE AS", "CREATE TABLE `n.csv` AS SELECT * FROM %s"},
+		{"DISPOSE VIEW", "DISPOSE VIEW %s"}, {"cursor", "DECLARE c CURSOR FOR SELECT * FROM %s; OPEN c"}, {"sub-query IN", "SELECT 1 WHERE 1 IN (SELECT c1 FROM %s)"},
+	}
+	var jobs []*job
+	for _, o := range objects {
+		for _, t := range tmpls {
+			stmts := append([]string{"DECLARE v VIEW (c1, c2, c3)"}, strings.Split(strings.ReplaceAll(t.tmpl, "%s", o.obj), "; ")...)
+			stmts = append(stmts, "ROLLBACK")
+			jobs = append(jobs, progJob("roles", []string{"stmt:table object grid", "table-object:" + o.class, "target-of:" + t.tag}, nil, stmts...))
 		}
 	}
 	return jobs
